@@ -1,5 +1,5 @@
-CONSTANTS CDefects = @CDefects@  NServers = 3  MaxRounds = @MaxRounds@
+CONSTANTS CDefects = @CDefects@  NServers = 3  MaxRounds = @MaxRounds@  Conc = @Conc@
 SPECIFICATION MCSpec
 INVARIANTS LockFreeWhenIdle PersistEqualsAdopted
-PROPERTIES BannedMonotone EntryFrozenUnlessBan DiskBannedMonotone
+PROPERTIES NeverSelectBanned BannedMonotone EntryFrozenUnlessBan DiskBannedMonotone
 CHECK_DEADLOCK FALSE
